@@ -13,5 +13,9 @@ CONSTANTS
   AsyncApply = FALSE
   MaxPerRequest = 99
   RecursiveRLock = FALSE
+  Kinds = {"Unavailable"}
+  CanceledStops = FALSE
+  StartUnreachable = FALSE
+  DialOnce = FALSE
 INVARIANTS TypeOK InSync SetTracksDeps NoDeadlock
 CHECK_DEADLOCK FALSE
